@@ -323,7 +323,7 @@ func buildPlan(id string, pinned map[string]string, tier string) *Plan {
 			"group elements and pairing lines are values of uninterpreted sorts; MultiExp, JointScalarMultiplication, FromAffine, SubAssign, FromJacobian, PairingCheckFixedQ and deriveGamma are opaque calls whose arguments and results are captured at the call site",
 			"textbook fact (not proved here): f(X) - f(a) = q(X) (X - a) with q_j = f_{j+1} + a f_{j+2} + ... (the suffix Horner values that dividePolyByXminusA is proved to return)"}
 		p.NotCovered = []string{"completeness of Verify on honest proofs and soundness of the pairing equation: these need the pairing (C05) and MSM (C04) semantics, not under contract",
-			"BatchVerifyMultiPoints: guards, delegation to Verify for one proof, acceptance only on a successful pairing check and untouched inputs are under contract, that every folding coefficient beyond the first is drawn by a successful SetRandom before the quotients are folded is under contract (a ghost counter checked before the multi-exponentiation), the folded operands of its pairing check are not; BatchOpenSinglePoint: guards (the empty batch is refused: F41) and index safety of the function, of its two goroutines and of the closure handed to parallel.Execute for every batch are under contract (go-as-call, channels-as-log, execute-as-range), the value of the folded polynomial (sum of gamma^i f_i, shorter polynomials padded with zeros) is not; the benchmark branch of NewSRS (trapdoor -1), the MPC setup, serialisation of keys and proofs: not under contract",
+			"BatchVerifyMultiPoints: guards, delegation to Verify for one proof, acceptance only on a successful pairing check and untouched inputs are under contract, that every folding coefficient beyond the first is drawn by a successful SetRandom before the quotients are folded is under contract (a ghost counter checked before the multi-exponentiation), the folded operands of its pairing check are not; BatchOpenSinglePoint: guards (the empty batch is refused: F41) and index safety of the function, of its two goroutines and of the closure handed to parallel.Execute for every batch are under contract (go-as-call, channels-as-log, execute-as-range), as are the operands of its calls (every polynomial evaluated once at the point; the quotient taken of the folded polynomial at the folded evaluation; the commitment made to that quotient); the value of the folded polynomial (sum of gamma^i f_i, shorter polynomials padded with zeros) is not; the benchmark branch of NewSRS (trapdoor -1), the MPC setup, serialisation of keys and proofs: not under contract",
 			"Verify does not test subgroup membership of the commitment and of H (the property quantifies over subgroup elements)"}
 		p.Note = "eval is Horner's value of the polynomial; dividePolyByXminusA returns the suffix Horner values (the synthetic-division quotient) and leaves f(a) - fa in f[0]; Commit refuses exactly the empty and the oversized polynomials and otherwise returns the multi-exponentiation of the first len(p) SRS points by p; Open returns ClaimedValue = p(point), never modifies p and succeeds on constant polynomials (H = point at infinity); Verify returns nil only if the pairing check was made on (totalG1Aff, proof.H) with the key's lines and succeeded, with totalG1 = [f(a)]G1 + [-a]H - commitment built by exactly those calls on those operands; fold returns the inner product of evaluations and factors and the multi-exponentiation of the digests; FoldProof refuses mismatched and empty batches, uses the powers 1, gamma, gamma^2, ... of the derived challenge and keeps H; BatchVerifySinglePoint accepts only if folding and verification both accepted; NewSRS refuses sizes below 2 and, for a trapdoor other than -1, hands the batch scalar multiplication of the G1 generator exactly the scalars a, a^2, ..., a^(size-1) (a the field element of the trapdoor) and multiplies the G2 generator by the same trapdoor. deriveGamma (the Fiat-Shamir challenge of the batched single-point opening) binds, in this order and with nothing skipped or repeated, the evaluation point, every digest, every claimed value and every item of the caller's transcript data, each through its own Marshal(), and computes the challenge only then."
 		return p
